@@ -20,6 +20,7 @@ def immRenamesAfterVerifiedTransfer : Bool := false
 def immListingIgnoresPartAndHash : Bool := false
 def immPartSuffixOnly : Bool := false
 def immStoreReturnsRenameError : Bool := false
+def immCleanUsesOneListing : Bool := false
 def transferVerifiesHash : Bool := false
 def mutStoreTransfersUnderLock : Bool := false
 def mutFetchUnpacksUnderLock : Bool := false
@@ -86,6 +87,17 @@ func extractCache(root string) (string, map[string]any, error) {
 	fmt.Fprintf(&b, "/-- Store: TransferFiles, error exit, then (and only then) the rename of the `.part` file (%s) -/\ndef immRenamesAfterVerifiedTransfer : Bool := %s\n", p.pos(immStore), leanBool(renameAfter))
 	fmt.Fprintf(&b, "/-- readers ignore `.part` and `.hash` files (%s) -/\ndef immListingIgnoresPartAndHash : Bool := %s\n", p.pos(listing), leanBool(ignores))
 	fmt.Fprintf(&b, "/-- the final name is obtained by dropping the `.part` SUFFIX only (not every occurrence in the path) -/\ndef immPartSuffixOnly : Bool := %s\n", leanBool(suffixOnly))
+	// CleanEntry decides from ONE listing: what it keeps (the first of the list) and what it removes (the rest) come
+	// from the same call; nothing else reads the directory
+	oneListing := false
+	if ce := p.method("SharedImmutableCacheRepository", "CleanEntry"); ce != nil {
+		cs := norm(p.src(ce.Body))
+		oneListing = strings.Count(cs, "listCompleteFilesByModTime(") == 1 && strings.Contains(cs, "files, err := listCompleteFilesByModTime(ctx, s.fs, entryDir)") &&
+			strings.Contains(cs, "toClean := files[1:]") && !strings.Contains(cs, "findCachedPackageFromEntryDir") && !strings.Contains(cs, ".Ls(") &&
+			strings.Contains(cs, "packageFile := filepath.Join(entryDir, file) err = s.fs.Rm(packageFile)")
+	}
+	facts["immCleanUsesOneListing"] = oneListing
+	fmt.Fprintf(&b, "/-- CleanEntry keeps the first and removes the rest of ONE listing of the complete packages -/\ndef immCleanUsesOneListing : Bool := %s\n", leanBool(oneListing))
 	fmt.Fprintf(&b, "/-- the result of Store after the transfer is the result of the rename of the package (no later assignment to err) -/\ndef immStoreReturnsRenameError : Bool := %s\n", leanBool(renameErrReturned))
 	fmt.Fprintf(&b, "/-- TransferFiles: hash of the source, copy, hash of the copy, removal of the copy on mismatch (%s) -/\ndef transferVerifiesHash : Bool := %s\n", p.pos(transfer), leanBool(verifies))
 	fmt.Fprintf(&b, "/-- mutable Store: lock, transfer, unlock in that order (%s) -/\ndef mutStoreTransfersUnderLock : Bool := %s\n", p.pos(mutStore), leanBool(before(mLock, mTransfer) && before(mTransfer, mUnlock)))
